@@ -304,6 +304,71 @@ func runOverlap(c *Ctx, r *Rng) {
 	c.Count("overlap", nameA+nameB)
 }
 
+// a forged datagram is not a request: while its secret lookup is still pending, a genuine request with the same
+// source and identifier arrives and must be dispatched (only dispatched requests enter the table of requests in flight)
+func runForgedThenGenuine(c *Ctx, r *Rng) {
+	schedMu.Lock()
+	defer schedMu.Unlock()
+	sec := []byte("forged")
+	hold := make(chan struct{})
+	ss := &scriptedSecrets{secs: map[string][]byte{peerAddr(0): sec}, errs: map[string]bool{},
+		hold: map[string]chan struct{}{peerAddr(0): hold}, entered: make(chan string, 8)}
+	gotc := make(chan string, 4)
+	cn := newFakeConn(0)
+	srv := &radius.PacketServer{SecretSource: ss, ErrorLog: log.New(io.Discard, "", 0),
+		Handler: radius.HandlerFunc(func(w radius.ResponseWriter, rq *radius.Request) {
+			gotc <- string(rq.Get(1))
+		})}
+	done := make(chan error, 1)
+	go func() { done <- srv.Serve(cn) }()
+	id := byte(r.Intn(256))
+	good := &radius.Packet{Code: 1, Identifier: id, Secret: sec}
+	copy(good.Authenticator[:], r.Bytes(16))
+	name := fmt.Sprintf("genuine-%d", r.Intn(1000))
+	good.Add(1, []byte(name))
+	g, _ := good.Encode()
+	// same identifier, an Accounting-Request whose authenticator is random: not authentic
+	bad := &radius.Packet{Code: 4, Identifier: id, Secret: []byte("someone else")}
+	bad.Add(1, []byte("forged"))
+	f, _ := bad.Encode()
+	if r.Bool() {
+		f = append([]byte{byte(r.Pick(1, 4, 12, 40)), id}, r.Bytes(r.Intn(30))...) // or plain garbage carrying the identifier
+	}
+	waitEntered := func() bool {
+		select {
+		case <-ss.entered:
+			return true
+		case <-time.After(800 * time.Millisecond):
+			return false
+		}
+	}
+	cn.in <- fakePkt{f, fakeAddr(peerAddr(0))}
+	firstParked := waitEntered()
+	cn.in <- fakePkt{g, fakeAddr(peerAddr(0))}
+	waitEntered()
+	close(hold)
+	var seen []string
+	for len(seen) < 2 {
+		select {
+		case n := <-gotc:
+			seen = append(seen, n)
+			continue
+		case <-time.After(600 * time.Millisecond):
+		}
+		break
+	}
+	ctx, cancel := context.WithTimeout(context.Background(), 3*time.Second)
+	srv.Shutdown(ctx)
+	cancel()
+	<-done
+	if firstParked && (len(seen) != 1 || seen[0] != name) {
+		c.Fail("spec", "PacketServer.Serve", "forged-then-genuine", fmt.Sprintf("forged %x (secret lookup pending), then genuine %x, both from %s with identifier %d", f, g, peerAddr(0), id),
+			fmt.Sprintf("handler invocations: %q", seen), fmt.Sprintf("[%q]", name),
+			"a datagram that is not an authentic request is dropped and leaves no trace: the genuine request with the same source and identifier is dispatched")
+	}
+	c.Count("forged-then-genuine", name)
+}
+
 // the table of requests in flight belongs to one Serve call: the same (source, identifier) arriving on another
 // socket of the same server while the first handler runs is a different request and must be dispatched
 func runTwoServes(c *Ctx, r *Rng) {
@@ -379,7 +444,7 @@ func b2i(b bool) int64 {
 
 func init() {
 	props["C06"] = func(c *Ctx) {
-		c.Res.Rule = "histories against the real PacketServer on a fake PacketConn: datagrams from 3 peers (two of them on one host with different ports; valid requests of every request code with few identifiers so that duplicates occur, exact retransmissions, forged Accounting/Disconnect/CoA requests, reply codes, garbage, over-long Length) interleaved with handler completions in random order; scripted SecretSource (secret / empty / error, the error accompanied by a non-empty stale secret, per peer), InsecureSkipVerify on and off; after each datagram the harness waits for the handler to start or for the datagram.done hook. Dispatch/drop decisions, request packet, dedup table size and the handler's reply are compared with the Coq model; request fields, reply destination and authenticator are checked directly; a separate scenario holds one datagram's secret lookup until the server has read the next datagram into its buffer and checks that each handler still receives its own peer's packet. non-trivial = history with at least one concurrent or repeated key"
+		c.Res.Rule = "histories against the real PacketServer on a fake PacketConn: datagrams from 3 peers (two of them on one host with different ports; valid requests of every request code with few identifiers so that duplicates occur, exact retransmissions, forged Accounting/Disconnect/CoA requests, reply codes, garbage, over-long Length) interleaved with handler completions in random order; scripted SecretSource (secret / empty / error, the error accompanied by a non-empty stale secret, per peer), InsecureSkipVerify on and off; after each datagram the harness waits for the handler to start or for the datagram.done hook. Dispatch/drop decisions, request packet, dedup table size and the handler's reply are compared with the Coq model; request fields, reply destination and authenticator are checked directly; a scenario parks a forged datagram in its secret lookup while the genuine request with the same source and identifier arrives (it must be dispatched); a separate scenario holds one datagram's secret lookup until the server has read the next datagram into its buffer and checks that each handler still receives its own peer's packet. non-trivial = history with at least one concurrent or repeated key"
 		r := c.Rng.Fork()
 		n := c.N(300, 6000)
 		for i := 0; i < n; i++ {
@@ -391,7 +456,10 @@ func init() {
 		for i := 0; i < c.N(5, 100); i++ {
 			runTwoServes(c, r)
 		}
+		for i := 0; i < c.N(4, 60); i++ {
+			runForgedThenGenuine(c, r)
+		}
 		c.Flush()
-		c.RequireTags("history", "history-concurrent", "reply", "overlap", "two-serve-calls")
+		c.RequireTags("history", "history-concurrent", "reply", "overlap", "two-serve-calls", "forged-then-genuine")
 	}
 }
